@@ -1,35 +1,31 @@
-//! C13 (black box, no hook): the real `spawn_tcp_client_task_with_options` over loopback TCP with a
-//! recording, gating `Listener<ClientState>`.  Real time; assertions are on ORDER only.
+//! C13, serial half (black box, no hook): the real RTU client task (`create_rtu_client_task`) on a pty.
+//! The task is given a path that is a symlink managed by the script: absent => the open fails,
+//! present => it points to the slave side of a fresh pty whose master side the harness serves.
+//! Real time; assertions are on ORDER only.
 //!
-//! input line:  cap=<n> mt=<n|0> rmin=<ms> rmax=<ms> | <step> ...
-//!   env:<refuse|close|garbage|silent|serve>   how the peer treats connections from now on
-//!                                             (refuse = nothing listens on the port)
-//!   E D X                                     Channel::enable / disable / shutdown
-//!   H                                         drop the (only) handle
-//!   S:<id>:<timeout_ms>                       read_holding_registers in a spawned task (completion class is logged)
-//!   hold:<n>                                  the n-th listener notification (1-based) blocks the task until `go`
-//!   go                                        release the held notification
-//!   wait:<n>                                  wait until n listener notifications have been made
-//!   waitc:<n>                                 wait until n requests have completed
-//!   done                                      wait until the channel task has ended (every handle then reports shutdown)
-//!   sleep:<ms>                                let real time pass (only used for "nothing more happens" checks)
-//! output line: <listener log>|<completions c<id>:<class> sorted>|<accepts>|<TIMEOUT at step k, if a wait did not finish>
+//! input line:  rmin=<ms> rmax=<ms> | <step> ...
+//!   link / unlink        the port path appears (new pty) / disappears
+//!   hup                  the harness closes the master side of the current pty
+//!   serve:<on|off>       answer read-holding-registers requests on the master side, or stay silent
+//!   E D X H              enable / disable / shutdown / drop the handle
+//!   S:<id>:<timeout_ms>  read_holding_registers in a spawned task
+//!   hold:<n> go wait:<n> waitc:<n> done sleep:<ms>    as in `lifecycle`
+//! output line: <PortState log: sD sW<ns> sO sS>|<completions>|<live|done[ after:<class>]>|<TIMEOUT ...>
 use std::collections::HashMap;
-use std::net::SocketAddr;
+use std::io::{Read, Write};
+use std::os::unix::io::FromRawFd;
+use std::sync::atomic::{AtomicBool, Ordering};
 use std::sync::{Arc, Mutex};
 use std::time::Duration;
 
-use rodbus::client::{Channel, ClientState, HostAddr, Listener, RequestParam};
-use rodbus::{AddressRange, ClientOptions, DecodeLevel, MaybeAsync, RequestError, UnitId};
-use tokio::io::{AsyncReadExt, AsyncWriteExt};
+use rodbus::client::{Channel, Listener, PortState, RequestParam};
+use rodbus::{AddressRange, DecodeLevel, MaybeAsync, RequestError, SerialSettings, UnitId};
 
 #[derive(Default)]
 struct Shared {
     listener: Vec<String>,
     completions: Vec<(u32, String)>,
-    accepts: usize,
     hold_at: Option<usize>,
-    mode: String,
 }
 
 type Ctl = Arc<Mutex<Shared>>;
@@ -39,22 +35,16 @@ struct Gate {
     release: Arc<tokio::sync::Notify>,
 }
 
-fn name(s: ClientState) -> String {
-    match s {
-        ClientState::Disabled => "lD".into(),
-        ClientState::Connecting => "lC".into(),
-        ClientState::Connected => "lN".into(),
-        ClientState::WaitAfterFailedConnect(d) => format!("lF{}", d.as_nanos()),
-        ClientState::WaitAfterDisconnect(d) => format!("lW{}", d.as_nanos()),
-        ClientState::Shutdown => "lS".into(),
-    }
-}
-
-impl Listener<ClientState> for Gate {
-    fn update(&mut self, value: ClientState) -> MaybeAsync<()> {
+impl Listener<PortState> for Gate {
+    fn update(&mut self, value: PortState) -> MaybeAsync<()> {
         let hold = {
             let mut c = self.ctl.lock().unwrap();
-            c.listener.push(name(value));
+            c.listener.push(match value {
+                PortState::Disabled => "sD".to_string(),
+                PortState::Wait(d) => format!("sW{}", d.as_nanos()),
+                PortState::Open => "sO".to_string(),
+                PortState::Shutdown => "sS".to_string(),
+            });
             if c.hold_at == Some(c.listener.len()) {
                 c.hold_at = None;
                 true
@@ -86,51 +76,80 @@ fn class<T>(r: &Result<T, RequestError>) -> &'static str {
     }
 }
 
-/// the peer: accepts while a listener is bound and treats each connection by the mode in force at accept time
-async fn peer(listener: tokio::net::TcpListener, ctl: Ctl) {
-    loop {
-        let (mut sock, _) = match listener.accept().await {
-            Ok(x) => x,
-            Err(_) => return,
-        };
-        let mode = {
-            let mut c = ctl.lock().unwrap();
-            c.accepts += 1;
-            c.mode.clone()
-        };
-        tokio::spawn(async move {
-            match mode.as_str() {
-                "close" => drop(sock),
-                "garbage" => {
-                    let _ = sock.write_all(&[0x00, 0x00, 0x00, 0x05, 0x00, 0x03, 0x01, 0x83, 0x02]).await;
-                    let mut buf = [0u8; 64];
-                    while let Ok(n) = sock.read(&mut buf).await {
-                        if n == 0 {
-                            break;
-                        }
-                    }
+fn crc16(data: &[u8]) -> u16 {
+    let mut crc: u16 = 0xFFFF;
+    for b in data {
+        crc ^= *b as u16;
+        for _ in 0..8 {
+            crc = if crc & 1 != 0 { (crc >> 1) ^ 0xA001 } else { crc >> 1 };
+        }
+    }
+    crc
+}
+
+struct Pty {
+    master: std::fs::File,
+    /// kept open so that the master side never sees "no slave" before the task has opened the port
+    slave: std::fs::File,
+}
+
+fn open_pty() -> (Pty, String) {
+    let mut master: libc::c_int = 0;
+    let mut slave: libc::c_int = 0;
+    let mut name = [0 as libc::c_char; 128];
+    let rc = unsafe { libc::openpty(&mut master, &mut slave, name.as_mut_ptr(), std::ptr::null(), std::ptr::null()) };
+    assert_eq!(rc, 0, "openpty");
+    let path = unsafe { std::ffi::CStr::from_ptr(name.as_ptr()) }.to_string_lossy().to_string();
+    unsafe {
+        let fl = libc::fcntl(master, libc::F_GETFL);
+        libc::fcntl(master, libc::F_SETFL, fl | libc::O_NONBLOCK);
+    }
+    (
+        Pty {
+            master: unsafe { std::fs::File::from_raw_fd(master) },
+            slave: unsafe { std::fs::File::from_raw_fd(slave) },
+        },
+        path,
+    )
+}
+
+/// serve the master side on a blocking thread: 8-byte RTU read-holding-registers requests
+fn serve(pty: Pty, on: Arc<AtomicBool>, alive: Arc<AtomicBool>) {
+    std::thread::spawn(move || {
+        let Pty { mut master, slave } = pty;
+        let mut buf = [0u8; 8];
+        let mut have = 0;
+        loop {
+            if !alive.load(Ordering::SeqCst) {
+                drop(slave);
+                return; // dropping both sides hangs up the port the task holds
+            }
+            match master.read(&mut buf[have..]) {
+                Ok(0) => return,
+                Ok(n) => have += n,
+                Err(e) if e.kind() == std::io::ErrorKind::WouldBlock => {
+                    std::thread::sleep(Duration::from_millis(2));
+                    continue;
                 }
-                "silent" => {
-                    let mut buf = [0u8; 64];
-                    while let Ok(n) = sock.read(&mut buf).await {
-                        if n == 0 {
-                            break;
-                        }
-                    }
+                Err(_) => {
+                    std::thread::sleep(Duration::from_millis(2));
+                    continue;
                 }
-                _ => {
-                    // serve: one 12-byte read-holding-registers request at a time
-                    let mut req = [0u8; 12];
-                    while sock.read_exact(&mut req).await.is_ok() {
-                        let reply = [req[0], req[1], 0, 0, 0, 5, req[6], 0x03, 0x02, 0xAB, 0xCD];
-                        if sock.write_all(&reply).await.is_err() {
-                            break;
-                        }
+            }
+            if have == 8 {
+                have = 0;
+                if on.load(Ordering::SeqCst) {
+                    let mut reply = vec![buf[0], 0x03, 0x02, 0xAB, 0xCD];
+                    let c = crc16(&reply);
+                    reply.push((c & 0xFF) as u8);
+                    reply.push((c >> 8) as u8);
+                    if master.write_all(&reply).is_err() {
+                        return;
                     }
                 }
             }
-        });
-    }
+        }
+    });
 }
 
 async fn wait_until<F: Fn(&Shared) -> bool>(ctl: &Ctl, f: F) -> bool {
@@ -143,7 +162,7 @@ async fn wait_until<F: Fn(&Shared) -> bool>(ctl: &Ctl, f: F) -> bool {
     false
 }
 
-async fn run_case(line: &str) -> String {
+async fn run_case(line: &str, case_no: usize) -> String {
     let (cfg, script) = line.split_once('|').expect("case needs a '|'");
     let mut kv: HashMap<&str, u64> = HashMap::new();
     for t in cfg.split_whitespace() {
@@ -151,48 +170,56 @@ async fn run_case(line: &str) -> String {
         kv.insert(k, v.parse().expect("number"));
     }
     let ctl: Ctl = Arc::new(Mutex::new(Shared::default()));
-    ctl.lock().unwrap().mode = "refuse".into();
-    // pick a free port, then release it: nothing listens until the script says so
-    let probe = std::net::TcpListener::bind("127.0.0.1:0").unwrap();
-    let addr: SocketAddr = probe.local_addr().unwrap();
-    drop(probe);
+    let link = std::env::temp_dir().join(format!("verif-pty-{}-{}", std::process::id(), case_no));
+    let _ = std::fs::remove_file(&link);
     let release = Arc::new(tokio::sync::Notify::new());
-    let options = ClientOptions::default()
-        .decode_level(DecodeLevel::nothing())
-        .max_queued_requests(kv["cap"] as usize)
-        .max_response_timeouts(std::num::NonZeroUsize::new(kv["mt"] as usize));
     let retry = rodbus::doubling_retry_strategy(Duration::from_millis(kv["rmin"]), Duration::from_millis(kv["rmax"]));
-    let (channel, task) = rodbus::client::create_tcp_client_task_with_options(
-        HostAddr::ip(addr.ip(), addr.port()),
+    let (channel, task) = rodbus::client::create_rtu_client_task(
+        link.to_str().unwrap(),
+        SerialSettings::default(),
+        4,
         retry,
+        DecodeLevel::nothing(),
         Some(Box::new(Gate {
             ctl: ctl.clone(),
             release: release.clone(),
         })),
-        options,
     );
     let jh = tokio::spawn(task.run());
     let mut channel: Option<Channel> = Some(channel);
-    let mut peer_task: Option<tokio::task::JoinHandle<()>> = None;
+    let serving = Arc::new(AtomicBool::new(true));
+    let mut alive: Option<Arc<AtomicBool>> = None;
     let mut failed: Option<String> = None;
 
     for (k, step) in script.split_whitespace().enumerate() {
         let p: Vec<&str> = step.split(':').collect();
         let ok = match p[0] {
-            "env" => {
-                ctl.lock().unwrap().mode = p[1].to_string();
-                if p[1] == "refuse" {
-                    if let Some(t) = peer_task.take() {
-                        t.abort();
-                        let _ = t.await;
-                    }
-                } else if peer_task.is_none() {
-                    let sock = tokio::net::TcpSocket::new_v4().unwrap();
-                    sock.set_reuseaddr(true).unwrap();
-                    sock.bind(addr).unwrap();
-                    let l = sock.listen(16).unwrap();
-                    peer_task = Some(tokio::spawn(peer(l, ctl.clone())));
+            "link" => {
+                let (pty, path) = open_pty();
+                if let Some(a) = alive.take() {
+                    a.store(false, Ordering::SeqCst);
                 }
+                let a = Arc::new(AtomicBool::new(true));
+                alive = Some(a.clone());
+                serve(pty, serving.clone(), a);
+                let _ = std::fs::remove_file(&link);
+                std::os::unix::fs::symlink(&path, &link).unwrap();
+                true
+            }
+            "unlink" => {
+                let _ = std::fs::remove_file(&link);
+                true
+            }
+            "hup" => {
+                // closing every master descriptor hangs up the slave side; the serving thread holds one: shut it by closing ours
+                // and making the path unusable is done by `unlink`; here we only drop our copy and ask the thread to stop
+                if let Some(a) = alive.take() {
+                    a.store(false, Ordering::SeqCst);
+                }
+                true
+            }
+            "serve" => {
+                serving.store(p[1] == "on", Ordering::SeqCst);
                 true
             }
             "E" | "D" | "X" => {
@@ -260,7 +287,6 @@ async fn run_case(line: &str) -> String {
         }
     }
     let done = jh.is_finished();
-    // after the task is gone every handle reports shutdown
     let mut after = String::new();
     if done {
         if let Some(ch) = channel.as_ref() {
@@ -271,29 +297,29 @@ async fn run_case(line: &str) -> String {
         }
     }
     jh.abort();
-    if let Some(t) = peer_task.take() {
-        t.abort();
+    if let Some(a) = alive.take() {
+        a.store(false, Ordering::SeqCst);
     }
+    let _ = std::fs::remove_file(&link);
     let c = ctl.lock().unwrap();
     let mut comps = c.completions.clone();
     comps.sort();
     format!(
-        "{}|{}|{}{}|{}|{}",
+        "{}|{}|{}{}|{}",
         c.listener.join(" "),
         comps.iter().map(|(i, s)| format!("c{i}:{s}")).collect::<Vec<_>>().join(" "),
         if done { "done" } else { "live" },
         after,
-        c.accepts,
         failed.unwrap_or_default()
     )
 }
 
 pub fn main(_args: &[String]) -> i32 {
     crate::util::quiet_panics();
-    for line in crate::util::stdin_lines() {
+    for (n, line) in crate::util::stdin_lines().enumerate() {
         let res = std::panic::catch_unwind(move || {
             let rt = tokio::runtime::Builder::new_current_thread().enable_all().build().unwrap();
-            let out = rt.block_on(run_case(&line));
+            let out = rt.block_on(run_case(&line, n));
             drop(rt);
             out
         });
